@@ -1630,3 +1630,52 @@ Proof.
   intro Hin. apply zip_fst_incl in Hin. unfold pkg_sendable in Hin. apply filter_In in Hin. destruct Hin as [_ Hin].
   unfold ostat in Hn. destruct (oget n (ls_orders s)) as [o|]; [|discriminate]. cbn in Hn. inversion Hn as [E]. rewrite E in Hin. discriminate.
 Qed.
+
+(* ---------- C12 (3): failed cancel instructions are counted exactly when the exchange answers each instruction of the package at most once ---------- *)
+Lemma by_bet_bet s pk b n : by_bet s pk b = Some n -> In n pk /\ exists o, oget n (ls_orders s) = Some o /\ lo_bet o = Some b.
+Proof.
+  unfold by_bet. intros H. apply find_some in H. destruct H as [Hin H]. split; [exact Hin|].
+  destruct (oget n (ls_orders s)) as [o|]; [|discriminate]. exists o. split; [reflexivity|].
+  destruct (lo_bet o) as [b'|]; cbn in H; [|discriminate]. f_equal. lia.
+Qed.
+Lemma by_bet_inj s pk b1 b2 n : by_bet s pk b1 = Some n -> by_bet s pk b2 = Some n -> b1 = b2.
+Proof.
+  intros H1 H2. destruct (by_bet_bet _ _ _ _ H1) as (_ & o1 & Ho1 & Hb1). destruct (by_bet_bet _ _ _ _ H2) as (_ & o2 & Ho2 & Hb2). congruence.
+Qed.
+
+Definition count_failures (reports : list (Z * cstat)) : Z := Z.of_nat (length (filter (fun br => match snd br with CFailure _ => true | _ => false end) reports)).
+
+Theorem tx_exec_cancel_exact s names reports :
+  NoDup (map fst reports) -> (forall br, In br reports -> by_bet s (pkg_orders s names) (fst br) <> None) ->
+  ls_tx_failed (exec_cancel s names reports) = ls_tx_failed s + count_failures reports.
+Proof.
+  intros Hnd Hall. unfold exec_cancel. cbv zeta. set (pk := pkg_orders s names) in *.
+  assert (G : forall l acc, NoDup (map fst l) -> (forall br, In br l -> exists n, by_bet s pk (fst br) = Some n /\ In n (snd (fst acc))) ->
+            (forall br br', In br l -> In br' l -> by_bet s pk (fst br) = by_bet s pk (fst br') -> fst br = fst br') ->
+            let acc' := fold_left (cancel_step s pk) l acc in
+            txr (fst (fst acc)) (fst (fst acc')) /\ snd acc' = snd acc + count_failures l).
+  { induction l as [|x r IH]; intros acc Hn Hin Hinj; cbn [fold_left]; cbv zeta; [split; [apply txr_refl|unfold count_failures; cbn; lia]|].
+    cbn [map] in Hn. inversion Hn as [|? ? Hx Hr]; subst.
+    destruct acc as [[s0 rest] nf]. cbn [fst snd] in *.
+    destruct (Hin x (or_introl eq_refl)) as (n & Hb & Hrest).
+    assert (Est : cancel_step s pk (s0, rest, nf) x = (with_trade s0 n (cancel_body n (snd x)), filter (fun y => negb (y =? n)) rest, nf + match snd x with CFailure _ => 1 | _ => 0 end)).
+    { unfold cancel_step. rewrite Hb. destruct (negb (existsb (Z.eqb n) rest)) eqn:E; [|reflexivity].
+      apply negb_true_iff in E. exfalso. assert (existsb (Z.eqb n) rest = true) by (apply existsb_exists; exists n; split; [exact Hrest|lia]). congruence. }
+    rewrite Est.
+    specialize (IH (with_trade s0 n (cancel_body n (snd x)), filter (fun y => negb (y =? n)) rest, nf + match snd x with CFailure _ => 1 | _ => 0 end) Hr).
+    cbn [fst snd] in IH. cbv zeta in IH.
+    destruct IH as [I1 I2].
+    - intros br Hbr. destruct (Hin br (or_intror Hbr)) as (m & Hm & Hmr). exists m. split; [exact Hm|]. apply filter_In. split; [exact Hmr|]. apply negb_true_iff.
+      destruct (Z.eq_dec m n) as [->|Hne]; [|lia]. exfalso. apply Hx. apply in_map_iff. exists br. split; [|exact Hbr].
+      apply (Hinj br x (or_intror Hbr) (or_introl eq_refl)). congruence.
+    - intros br br' H1 H2. apply Hinj; right; assumption.
+    - split; [eapply txr_trans; [apply txr_with_trade; intros y; apply txr_cancel_body|exact I1]|].
+      rewrite I2. unfold count_failures. cbn [filter]. destruct (snd x); cbn [length]; lia. }
+  specialize (G reports (s, pk, 0) Hnd). cbv zeta in G. cbn [fst snd] in G.
+  destruct G as [[G1 G2] G3].
+  - intros br Hbr. specialize (Hall br Hbr). destruct (by_bet s pk (fst br)) as [n|] eqn:E; [|congruence]. exists n. split; [reflexivity|]. apply (by_bet_bet _ _ _ _ E).
+  - intros br br' H1 H2 E. specialize (Hall br H1). destruct (by_bet s pk (fst br)) as [n|] eqn:E1; [|congruence]. symmetry in E. eapply by_bet_inj; eassumption.
+  - set (acc := fold_left (cancel_step s pk) reports (s, pk, 0)) in *.
+    match goal with |- context [fold_left ?f ?l (fst (fst acc))] => assert (Ht : txr (fst (fst acc)) (fold_left f l (fst (fst acc)))) by (apply txr_fold; intros s0 x; apply txr_with_trade; intros y; apply txr_order_status) end.
+    destruct Ht as [T1 T2]. cbn [add_tx ls_tx ls_tx_failed]. rewrite T2, G2, G3. lia.
+Qed.
